@@ -724,6 +724,21 @@ def r_ret(ctx):
             break
     else:
         ctx.ob("R-RET", "PEP.%s::mode dispatch" % root.name, False, "no dispatch on 'dual' / 'primal' found", loc(root, root))
+    # the value returned when the caller says nothing is the certified one: the mode parameter defaults to 'dual' in the solve root and in its public caller
+    if mode_param is not None:
+        pep = common.pep_class(repo)
+        for fn0 in [root] + [m for m in pep.methods.values() if m is not root and any(isinstance(c, ast.Call) and call_name(c) == root.name for c in ast.walk(m))]:
+            a0 = fn0.args
+            pos = a0.posonlyargs + a0.args
+            dflt = dict(zip([x.arg for x in pos[len(pos) - len(a0.defaults):]], a0.defaults))
+            dflt.update({x.arg: d for x, d in zip(a0.kwonlyargs, a0.kw_defaults) if d is not None})
+            if mode_param not in dflt:
+                continue
+            okdef = is_const(dflt[mode_param], "dual")
+            ctx.ob("R-RET", "PEP.%s::default mode" % fn0.name, okdef,
+                   "without an explicit choice the reconstructed (certified) value is returned" if okdef else
+                   "`%s` defaults to %s: a plain solve() returns the solver's primal value, which is a lower bound of the worst case, not a certified upper bound"
+                   % (mode_param, src(dflt[mode_param])), loc(fn0, fn0))
     # inside the reconstruction: returned name <- key 1 of the pruned symmetrised decomposition of (objective - combination), default 0
     ctx.unit(qualname(rec))
     rets = [r for r in ast.walk(rec) if isinstance(r, ast.Return)]
@@ -738,6 +753,32 @@ def r_ret(ctx):
                    and is_const(s.value.args[1]) and s.value.args[1].value in (0, 0.0)]
         ok = (len(defs) == 2 and len(from_dict) == 1 and len(zero) == 1) or (len(defs) == 1 and len(via_get) == 1)
         msg = "returned value is entry 1 (the constant) of the decomposition, 0 when absent"
+        if ok and from_dict:
+            # which definition reaches the return when the constant is present / absent
+            dn = dotted(from_dict[0].value.value)
+
+            def present_test(t, present):
+                if isinstance(t, ast.Compare) and len(t.ops) == 1 and is_const(t.left, 1) and isinstance(t.ops[0], (ast.In, ast.NotIn)):
+                    c = t.comparators[0]
+                    base = c.func.value if isinstance(c, ast.Call) and call_name(c) == "keys" else c
+                    if dotted(base) == dn:
+                        return present if isinstance(t.ops[0], ast.In) else not present
+                if isinstance(t, ast.UnaryOp) and isinstance(t.op, ast.Not):
+                    v = present_test(t.operand, present)
+                    return None if v is None else not v
+                return None
+            for present, want, what in ((True, from_dict[0], "present"), (False, zero[0], "absent")):
+                live = []
+                for d in defs:
+                    conds = flow.conditions_guarding(d)
+                    vals = [(present_test(t, present), br) for t, br, _ in conds]
+                    if any(v is not None and v != br for v, br in vals):
+                        continue
+                    live.append(d)
+                last = max(live, key=lambda d: d.lineno) if live else None
+                if last is not want:
+                    ok = False
+                    msg = "when the constant term is %s the value returned is `%s`" % (what, norm_stmt(last)[:60] if last is not None else "undefined")
         if ok:
             dname = dotted(from_dict[0].value.value) if from_dict else dotted(via_get[0].value.func.value)
             ddefs = [s for s in flow.stmts_of(rec, ast.Assign) if any(isinstance(t, ast.Name) and t.id == dname for t in s.targets)]
@@ -978,5 +1019,41 @@ def r_declare(ctx):
                    "what is declared is stored exactly once on every path" if ok else
                    ("the declaration method rebinds `self.%s`" % attr if rebinds else
                     "a declared %s is stored %s times depending on the path: it can be silently dropped (or duplicated)" % (kind, sorted(normal))), loc(fn, fn))
+    # public set_* / add_* methods of the same classes that store nothing themselves must hand what they are given to exactly one declaration method
+    direct = {}
+    for (cname, attr), kind in conts.items():
+        if "class" in attr:
+            continue
+        for fn in repo.cls(cname).methods.values():
+            if any(isinstance(x, ast.Call) and call_name(x) == "append" and dotted(x.func.value) == "self." + attr for x in ast.walk(fn)):
+                direct.setdefault(cname, set()).add(fn.name)
+    for cname in sorted(direct):
+        c = repo.cls(cname)
+        for fn in c.methods.values():
+            if fn.name in direct[cname] or fn.name in DECLARE_NOT_MODEL or not (fn.name.startswith("set_") or fn.name.startswith("add_")):
+                continue
+            n += 1
+            is_deleg = lambda nd: isinstance(nd, ast.Call) and isinstance(nd.func, ast.Attribute) and dotted(nd.func.value) == "self" and nd.func.attr in direct[cname]
+            pc = flow.path_counts(fn.body, is_deleg)
+            normal = pc.get("next", set()) | pc.get("return", set())
+            ok = normal == {1}
+            passed = True
+            if ok:
+                call = [nd for nd in ast.walk(fn) if is_deleg(nd)][0]
+                given = [a for a in call.args] + [k.value for k in call.keywords]
+                passed = any(isinstance(a, ast.Name) and a.id in params_of(fn)[1:] for a in given)
+            ctx.ob("R-DECLARE", "%s.%s::hands over to a declaration method" % (cname, fn.name), ok and passed,
+                   "what is declared is handed to exactly one storing method on every path" if ok and passed else
+                   ("the storing method is called %s times depending on the path: the declared object never reaches the model (or reaches it twice)" % sorted(normal)
+                    if not ok else "the storing method does not receive the declared object"), loc(fn, fn))
     ctx.count("declaration methods", n)
     return n
+
+
+DECLARE_NOT_MODEL = {
+    "set_name": "names an object, declares nothing",
+    "add_class_constraints": "class-constraint hook (R-FORMULA / R-REGEN)", "set_class_constraints": "regeneration of class constraints (R-REGEN)",
+    "add_constraints_from_one_list_of_points": "generator (R-ALIGN)", "add_constraints_from_two_lists_of_points": "generator (R-ALIGN)",
+    "add_partition_constraints": "orthogonality generator (R-ORTHO)", "add_point": "oracle registration (R-ADDPOINT)",
+    "set_initial_point": "creates and returns a new leaf (R-NEWOBJ)",
+}
